@@ -157,6 +157,36 @@ func runC47(c *eng.Ctx) {
 				continue
 			}
 			nTrim++
+			// bytes.TrimSuffix(buffer, []byte{'\r'}) removes one trailing CR if there
+			// is one — the library form of the same function
+			if call, isCall := eng.Unwrap(v).(*ssa.Call); isCall && eng.CalleeName(call) == "bytes.TrimSuffix" && len(call.Call.Args) == 2 && eng.Render(call.Call.Args[0]) == "p0" {
+				okLib := false
+				if lit := eng.LitOf(call.Call.Args[1]); lit != nil {
+					okLib = true
+				}
+				if sl2, isSl := eng.Unwrap(call.Call.Args[1]).(*ssa.Slice); isSl {
+					if al, isAl := sl2.X.(*ssa.Alloc); isAl {
+						// a one-element array literal holding '\r'
+						n, cr := 0, false
+						for _, ref := range *al.Referrers() {
+							if ia, isIA := ref.(*ssa.IndexAddr); isIA {
+								for _, r2 := range *ia.Referrers() {
+									if st, isSt := r2.(*ssa.Store); isSt {
+										n++
+										cr = constIs(st.Val, '\r')
+									}
+								}
+							}
+						}
+						okLib = n == 1 && cr && strings.HasSuffix(eng.TypeShort(al.Type()), "[1]byte")
+					}
+				}
+				if s, isConv := eng.Unwrap(call.Call.Args[1]).(*ssa.Convert); isConv { // []byte("\r")
+					okLib = eng.Render(s.X) == `"\r"`
+				}
+				c.Check("R2", "trim-exactly-when-last-byte-is-cr", r.Pos(), okLib, "the last byte is dropped exactly when the slice is non-empty and ends in a carriage return (bytes.TrimSuffix with the one-byte suffix CR)", eng.RenderCall(&call.Call))
+				continue
+			}
 			sl, ok := v.(*ssa.Slice)
 			okS := ok && eng.Render(sl.X) == "p0" && sl.Low == nil && sl.High != nil
 			if okS {
